@@ -359,11 +359,11 @@ def array_entry(run, im, rng, ncases):
                 if not np.allclose(back, e, rtol=1e-9):
                     run.violation("integrating the reconstructed 2D spectrum over direction does not return e(f)",
                                   dict(info, got=back.reshape(-1)[:6].tolist(), want=e.reshape(-1)[:6].tolist()))
-                if not single:
+                if not single and variant != "mem2/newton":       # (Newton: the convergence-aware comparison of `batches`)
                     i, k = rng.randrange(nt), rng.randrange(nf)
                     alone = np.asarray(im.estimate.estimate_directional_spectrum_from_moments(
                         e[i:i + 1, k:k + 1], *[c[i:i + 1, k:k + 1] for c in cols], deg, **kw), dtype=float)[0, 0]
-                    if not close(E2[i, k], alone, 1e-6 if variant == "mem2/newton" else 1e-9):
+                    if not close(E2[i, k], alone, 1e-9):
                         run.violation("a spectrum of a batch does not get the result it gets alone", dict(info, point=[i, k]))
 
 
